@@ -17,6 +17,7 @@ fn run_case(e: &Sexp) -> String {
         "fd" => fdcase::run(&l[1..]),
         "prog" => prog::run(&l[1..]),
         "unify" => ucase::run_unify(&l[1..]),
+        "lterm" => ucase::run_lterm(&l[1..]),
         k => panic!("harness: unknown case kind {}", k),
     }
 }
